@@ -238,6 +238,7 @@ var _ uuid.UUID
 //@ requires [pushable] pushable(items)
 //@ ensures [result] istype(ret, *priorityQueue) && ret.pay != 0 && fresh(ret.(*priorityQueue)) && wfpq(ret.(*priorityQueue))
 //@ ensures [kind] isMin(ret.(*priorityQueue).queue)
+//@ ensures [own-cell] fresh(ret.(*priorityQueue).queue.(*minPriorityQueue))
 //@ ensures [len] len(qs(ret.(*priorityQueue).queue)) == len(items)
 //@ ensures [fresh] fresh(qs(ret.(*priorityQueue).queue)) || len(items) == 0
 //@ modifies nothing
@@ -248,6 +249,7 @@ var _ uuid.UUID
 //@ requires [pushable] pushable(items)
 //@ ensures [result] istype(ret, *priorityQueue) && ret.pay != 0 && fresh(ret.(*priorityQueue)) && wfpq(ret.(*priorityQueue))
 //@ ensures [kind] isMax(ret.(*priorityQueue).queue)
+//@ ensures [own-cell] fresh(ret.(*priorityQueue).queue.(*maxPriorityQueue))
 //@ ensures [len] len(qs(ret.(*priorityQueue).queue)) == len(items)
 //@ ensures [fresh] fresh(qs(ret.(*priorityQueue).queue)) || len(items) == 0
 //@ modifies nothing
